@@ -15,7 +15,8 @@ import vlib
 CONFIGS = {
     "C26": [dict(groups=["conn", "reg", "sub", "pub", "bpub", "burst"], qoss=[0, 1, 2], depth=(4, 5)),
             dict(groups=["conn", "sub", "bpub", "sleep", "burst"], qoss=[1], depth=(5, 6)),
-            dict(groups=["conn", "reg", "pub", "pre", "sleep"], qoss=[0, 3], depth=(4, 5))],
+            dict(groups=["conn", "reg", "pub", "pre", "sleep"], qoss=[0, 3], depth=(4, 5)),
+            dict(groups=["conn", "pub", "sub", "sleep", "will"], qoss=[1], depth=(3, 4))],
     "C32": [dict(groups=["conn", "pre", "bpub", "sub", "pub", "hishort"], qoss=[1], depth=(4, 5)),
             dict(groups=["conn", "pre", "pub", "bpub", "hishort"], qoss=[0, 2, 3], depth=(3, 4))],
     "C16": [dict(groups=["conn", "sub", "bpub"], qoss=[1, 2], depth=(3, 3))],
